@@ -502,6 +502,8 @@ class VeritImpliesMacro(Macro):
         # goal : ~a | b  pt: |- a --> b
         goal = Or(*args)
         pt = prevs[0]
+        if not pt.prop.is_implies():
+            raise VeriTException("implies", "premise should be an implication")
         if Or(Not(pt.prop.arg1), pt.prop.arg) == goal:
             return Thm(goal, pt.hyps)
         else:
